@@ -299,6 +299,17 @@ func guard(f func()) (msg string) {
 
 // replayModel interprets the harness concretely with the model's values against a real chain.
 func (l *loaded) replayModel(h *Harness, params []int, model map[string]string) (e *Engine, err string) {
+	if h.Native { // the real package code runs under `go test` with the model's values
+		r, msg := nativeReplay(h, params, model)
+		if msg != "" {
+			return nil, msg
+		}
+		e = &Engine{replayCovers: r.Covers, replayHolds: r.Holds, replayFails: r.Fails}
+		for id := range r.Fails {
+			e.replayLog = append(e.replayLog, "  assertion "+id+" FAILS in the real package code (go test -overlay)")
+		}
+		return e, ""
+	}
 	err = guard(func() {
 		var st *State
 		e, st = l.newEngine(h, params, model)
